@@ -37,7 +37,11 @@ type Op struct {
 	SleepMs int      `json:"sleep_ms,omitempty"`
 	Pad     int      `json:"pad,omitempty"` // every value is padded with this many bytes (large batches)
 	Rep     int      `json:"rep,omitempty"` // the key list is repeated this many times (large batches)
-	GapUs   int      `json:"gap_us,omitempty"`
+	// Fill > 0 (bget, bdel of single-actor runs): that many DISTINCT keys that are never written
+	// ("<first key>\x01NNNN") follow the key list, so that one region receives more keys than one request may
+	// carry and the keys of the list sit at the head of its first partial request
+	Fill  int `json:"fill,omitempty"`
+	GapUs int `json:"gap_us,omitempty"`
 	// TimeoutUs > 0: the call runs under a context that expires after this much simulated time
 	// (mode lossy only: a call that gave up may or may not have taken effect).
 	TimeoutUs int `json:"timeout_us,omitempty"`
@@ -99,6 +103,7 @@ type gen struct {
 	actor  int
 	nval   int
 	ttlRun bool
+	single bool // the only actor of the run
 }
 
 func (g *gen) key() string { return dataKeys[g.r.Intn(len(dataKeys))] }
@@ -206,6 +211,9 @@ func (g *gen) op() Op {
 		if r.Intn(25) == 0 {
 			op.Rep = 70 + r.Intn(30) // more keys than one request may carry
 		}
+		if g.single && r.Intn(8) == 0 {
+			op.Fill = 513 + r.Intn(300)
+		}
 	case x < 54:
 		op.Kind, op.Keys = "bput", g.keys(1+r.Intn(6))
 		for range op.Keys {
@@ -225,6 +233,9 @@ func (g *gen) op() Op {
 		}
 	case x < 59:
 		op.Kind, op.Keys = "bdel", g.keys(1+r.Intn(4))
+		if g.single && r.Intn(6) == 0 {
+			op.Fill = 513 + r.Intn(300)
+		}
 		for _, k := range op.Keys {
 			delete(g.gm, k)
 		}
@@ -305,7 +316,7 @@ func genScenario(cfg simkit.RunConfig, mode string) *Scenario {
 	sc.Shared = nactors > 1 && r.Intn(3) == 0
 	estUs := 0
 	for a := 0; a < nactors; a++ {
-		g := &gen{r: r, sc: sc, gm: map[string]string{}, actor: a, ttlRun: sc.TTLRun}
+		g := &gen{r: r, sc: sc, gm: map[string]string{}, actor: a, ttlRun: sc.TTLRun, single: nactors == 1}
 		nops := 6 + r.Intn(9)
 		if nactors == 3 {
 			nops = 5 + r.Intn(5)
@@ -381,7 +392,7 @@ func fmtOp(op *Op) string {
 	case "get", "getttl", "del":
 		fmt.Fprintf(&sb, "(%q)", op.Key)
 	case "bget", "bdel":
-		fmt.Fprintf(&sb, "(%q rep=%d)", op.Keys, op.Rep)
+		fmt.Fprintf(&sb, "(%q rep=%d fill=%d)", op.Keys, op.Rep, op.Fill)
 	case "bput", "bputttl":
 		fmt.Fprintf(&sb, "(%q=%q ttls=%v pad=%d)", op.Keys, op.Vals, op.TTLs, op.Pad)
 	case "delrange", "checksum":
